@@ -396,7 +396,6 @@ from ..core import Canary
 
 @PROP.obligation('C19.conditionals', canaries=[
     Canary('nested OP_ELSE dropped (test hoisted, fall-through append lost)', 'scripts', _mut_nested_else),
-    mut.drop_stmt('scripts', 'Stack.op_if', 'num_endifs_needed += 1', 'nesting depth not counted'),
 ])
 def conditionals(ctx):
     """Stack.op_if splitting loop: on every path through the loop body the item taken from the command stream is appended to the
@@ -605,6 +604,7 @@ def arg_binding(ctx):
 
 @PROP.obligation('C19.balanced-conditionals', canaries=[
     mut.replace_stmt('scripts', 'Stack.op_if', 'if not found:', 'if False:\n    pass', 'a conditional without ENDIF is accepted'),
+    mut.drop_stmt('scripts', 'Stack.op_if', 'num_endifs_needed += 1', 'nesting depth not counted'),
     mut.replace_expr('scripts', 'Stack.op_notif', 'self.op_if(commands)', 'True', 'NOTIF never splits the command stream') if False else
     mut.replace_expr('scripts', 'Stack.op_if', 'num_endifs_needed == 1', 'num_endifs_needed >= 1', 'the ENDIF of a nested conditional closes the outer one', nth=1),
 ])
